@@ -30,6 +30,7 @@ import (
 // Check describes one property check.
 type Check struct {
 	ID          string
+	Property    string // property reported in VIOLATION / KNOWN-FINDING lines and matched against the findings file (default: ID)
 	Level       string // evidence level
 	Rule        string
 	Assumptions []string
@@ -44,7 +45,12 @@ type Check struct {
 
 var checks = map[string]*Check{}
 
-func register(c *Check) { checks[c.ID] = c }
+func register(c *Check) {
+	if c.Property == "" {
+		c.Property = c.ID
+	}
+	checks[c.ID] = c
+}
 
 // Violation is one observed property violation.
 type Violation struct {
@@ -668,7 +674,7 @@ func runParent(ck *Check, tier string, seed int64, emit bool) int {
 		return 2
 	}
 	// classify violations
-	known := loadFindings(filepath.Join(verifDir, "known_findings.jsonl"), ck.ID)
+	known := loadFindings(filepath.Join(verifDir, "known_findings.jsonl"), ck.Property)
 	sort.SliceStable(merged.Violations, func(i, j int) bool {
 		a, b := merged.Violations[i], merged.Violations[j]
 		if a.Unit != b.Unit {
@@ -706,12 +712,12 @@ func runParent(ck *Check, tier string, seed int64, emit bool) int {
 		if f.ShapeRe != "" {
 			shape = "~" + f.ShapeRe
 		}
-		fmt.Printf("KNOWN-FINDING: property=%s site=%s shape=%s :: %s\n", ck.ID, f.Site, shape, f.What)
+		fmt.Printf("KNOWN-FINDING: property=%s site=%s shape=%s :: %s\n", ck.Property, f.Site, shape, f.What)
 	}
 	exit := 0
 	if emit {
 		for _, v := range fresh {
-			b, _ := json.Marshal(Finding{Status: "known", Property: ck.ID, Site: v.Site, Shape: v.Shape, What: firstLine(v.Detail)})
+			b, _ := json.Marshal(Finding{Status: "known", Property: ck.Property, Site: v.Site, Shape: v.Shape, What: firstLine(v.Detail)})
 			fmt.Printf("CANDIDATE %s\n", b)
 		}
 	}
@@ -725,12 +731,12 @@ func runParent(ck *Check, tier string, seed int64, emit bool) int {
 			}
 			path := filepath.Join(outDir(), "replays", ck.ID, fmt.Sprintf("%s-%s-u%d-%d.json", ck.ID, tier, v.Unit, i))
 			rb, _ := json.MarshalIndent(map[string]interface{}{
-				"property": ck.ID, "tier": tier, "seed": seed, "unit": v.Unit,
+				"property": ck.Property, "check": ck.ID, "tier": tier, "seed": seed, "unit": v.Unit,
 				"site": v.Site, "shape": v.Shape, "detail": v.Detail,
 				"replay_cmd": fmt.Sprintf("/verif/run.sh %s %s --replay %s", ck.ID, tier, path),
 			}, "", " ")
 			os.WriteFile(path, rb, 0o644)
-			fmt.Printf("VIOLATION property=%s replay=%s\n", ck.ID, path)
+			fmt.Printf("VIOLATION property=%s replay=%s\n", ck.Property, path)
 			fmt.Printf("  site=%s shape=%s\n  %s\n", v.Site, v.Shape, strings.ReplaceAll(v.Detail, "\n", "\n  "))
 		}
 	}
@@ -827,7 +833,7 @@ func doReplay(ck *Check, tier, path string) int {
 		return 2
 	}
 	if c.res.ViolCount > 0 {
-		fmt.Printf("VIOLATION property=%s replay=%s\n", ck.ID, path)
+		fmt.Printf("VIOLATION property=%s replay=%s\n", ck.Property, path)
 		return 1
 	}
 	fmt.Printf("replay of unit %d: no violation\n", r.Unit)
